@@ -1984,17 +1984,29 @@ impl Part for Sweep {
 // ---- token-level mutations of generated valid requests ----
 
 #[derive(Clone, Debug, Serialize, Deserialize)]
+enum MutBase {
+    /// generated valid request, printed with `lay`
+    Gen { q: Query, lex: Vec<u8>, lay: Vec<u8> },
+    /// a corpus request (extension syntax included), split into tokens and whitespace runs
+    Text { file: String, text: String },
+}
+
+#[derive(Clone, Debug, Serialize, Deserialize)]
 struct MutCase {
-    q: Query,
-    lex: Vec<u8>,
-    lay: Vec<u8>,
+    base: MutBase,
     muts: Vec<(u8, u16, u16)>,
 }
 
-const MUT_DICT: [&str; 64] = [
+const MUT_DICT: [&str; 72] = [
     "SELECT", "WHERE", "{", "}", "(", ")", ".", ";", ",", "UNION", "GRAPH", "FILTER", "BIND", "VALUES", "UNDEF", "<<", ">>", "?x", "$y", "_:b", "a", "e:p", ":", "<urn:x>", "<", ">", "\"", "'", "\"\"\"", "'''",
     "\\", "@en", "^^", "#", "\n", "\r", "*", "=", "!=", "&&", "||", "!", "+", "-", "1", "1.", ".5", "1e", "é", "€", "😀", "\u{0301}", "\u{00A0}", "\u{2028}", "INSERT", "DELETE", "DATA", "PREFIX", "FROM", "NAMED", "ORDER BY", "LIMIT", "AS", "%2",
+    "[", "]", "PT", "STEP", "MODEL", "INPUT", "OUTPUT", "PROB(",
 ];
+
+/// numbers at the edges of the integer types the parsers convert to
+const MUT_NUMBERS: [&str; 8] = ["0", "4294967296", "9223372036854775807", "18446744073709551615", "18446744073709551616", "99999999999999999", "5124095576030431", "1e999"];
+
+const MUT_KINDS: u8 = 11;
 
 fn apply_mutations(toks: &mut Vec<Tok>, muts: &[(u8, u16, u16)]) {
     for &(k, a, b) in muts {
@@ -2003,7 +2015,7 @@ fn apply_mutations(toks: &mut Vec<Tok>, muts: &[(u8, u16, u16)]) {
             continue;
         }
         let i = pick_idx(a, toks.len());
-        match k % 9 {
+        match k % MUT_KINDS {
             0 => {
                 toks.remove(i);
             }
@@ -2017,7 +2029,7 @@ fn apply_mutations(toks: &mut Vec<Tok>, muts: &[(u8, u16, u16)]) {
                 }
             }
             3 => toks[i] = tok(MUT_DICT[pick_idx(b, MUT_DICT.len())], K::Kw),
-            4 => toks.insert(i, tok(MUT_DICT[pick_idx(b, MUT_DICT.len())], K::P)),
+            4 => toks.insert(i, tok(format!("{} ", MUT_DICT[pick_idx(b, MUT_DICT.len())]), K::P)),
             5 => {
                 // multi-byte character inside the token, at a char boundary
                 let s = &toks[i].s;
@@ -2038,24 +2050,82 @@ fn apply_mutations(toks: &mut Vec<Tok>, muts: &[(u8, u16, u16)]) {
                     toks.remove(i);
                 }
             }
-            _ => {
+            8 => {
                 let t = &mut toks[i];
                 t.s = if b % 2 == 0 { t.s.to_uppercase() } else { t.s.to_lowercase() };
+            }
+            9 => {
+                // copy a token to another place (keywords out of order, repeated clauses)
+                let j = pick_idx(b, toks.len() + 1);
+                // prefer keywords (upper-case words): a clause keyword in the wrong place is the interesting case
+                let kws: Vec<usize> = (0..toks.len()).filter(|&x| toks[x].s.len() > 1 && toks[x].s.chars().all(|c| c.is_ascii_uppercase() || c == '.')).collect();
+                let i = if kws.is_empty() { i } else { kws[pick_idx(a, kws.len())] };
+                let mut t = toks[i].clone();
+                t.s.push(' ');
+                toks.insert(j, t);
+            }
+            _ => {
+                // the digits of a token (or the whole token) become a boundary number
+                let n = MUT_NUMBERS[pick_idx(b, MUT_NUMBERS.len())];
+                let s = &toks[i].s;
+                if let Some(st) = s.find(|c: char| c.is_ascii_digit()) {
+                    let len = s[st..].chars().take_while(|c| c.is_ascii_digit()).count();
+                    toks[i].s = format!("{}{}{}", &s[..st], n, &s[st + len..]);
+                } else {
+                    toks[i].s = n.to_string();
+                }
             }
         }
     }
 }
 
-fn mutated_text(c: &MutCase) -> String {
-    let (req, _) = lexicalise(&c.q, &c.lex);
-    let mut ch = Ch::new(&c.lay);
-    let (mut toks, ..) = print_tokens(&req, &mut ch);
-    if let Query::Upd(UpdOp::Rejected(t)) = &c.q {
-        toks = t.split_whitespace().map(|w| tok(w, K::Kw)).collect();
+/// words (name-ish runs), whitespace runs, and single other characters
+fn split_tokens(text: &str) -> Vec<Tok> {
+    let wordish = |c: char| c.is_alphanumeric() || matches!(c, '_' | ':' | '?' | '$' | '-' | '.');
+    let mut out: Vec<Tok> = vec![];
+    let mut cur = String::new();
+    let mut cur_kind = 0u8; // 1 word, 2 whitespace
+    for c in text.chars() {
+        let kind = if c.is_whitespace() {
+            2
+        } else if wordish(c) {
+            1
+        } else {
+            0
+        };
+        if kind != cur_kind || kind == 0 {
+            if !cur.is_empty() {
+                out.push(tok(std::mem::take(&mut cur), K::Kw));
+            }
+            cur_kind = kind;
+        }
+        cur.push(c);
     }
-    apply_mutations(&mut toks, &c.muts);
-    let mut st = LayoutStats::default();
-    render(&toks, &mut ch, &mut st)
+    if !cur.is_empty() {
+        out.push(tok(cur, K::Kw));
+    }
+    out
+}
+
+fn mutated_text(c: &MutCase) -> String {
+    match &c.base {
+        MutBase::Gen { q, lex, lay } => {
+            let (req, _) = lexicalise(q, lex);
+            let mut ch = Ch::new(lay);
+            let (mut toks, ..) = print_tokens(&req, &mut ch);
+            if let Query::Upd(UpdOp::Rejected(t)) = q {
+                toks = t.split_whitespace().map(|w| tok(w, K::Kw)).collect();
+            }
+            apply_mutations(&mut toks, &c.muts);
+            let mut st = LayoutStats::default();
+            render(&toks, &mut ch, &mut st)
+        }
+        MutBase::Text { text, .. } => {
+            let mut toks = split_tokens(text);
+            apply_mutations(&mut toks, &c.muts);
+            toks.iter().map(|t| t.s.as_str()).collect()
+        }
+    }
 }
 
 struct Mutations;
@@ -2065,14 +2135,25 @@ impl Part for Mutations {
         "mutations"
     }
     fn cases(&self, tier: Tier) -> u32 {
-        tier.pick(20_000, 400_000)
+        tier.pick(60_000, 800_000)
     }
     fn strategy(&self, _: Tier) -> BoxedStrategy<MutCase> {
         let q = prop_oneof![
             3 => query_strategy(),
             1 => (sq::dataset_strategy(4, 3), raw_op()).prop_map(|(d, r)| Query::Upd(UBuilder::new(&d).op(&r))),
         ];
-        (q, bytes(120), bytes(200), proptest::collection::vec((0u8..9, any::<u16>(), any::<u16>()), 1..=4)).prop_map(|(q, lex, lay, muts)| MutCase { q, lex, lay, muts }).boxed()
+        let corpus: std::sync::Arc<Vec<(String, String)>> = std::sync::Arc::new(load_dir(CORPUS_DIR).into_iter().map(|(n, b)| (n, String::from_utf8_lossy(&b).to_string())).collect());
+        let gen = (q, bytes(120), bytes(200)).prop_map(|(q, lex, lay)| MutBase::Gen { q, lex, lay });
+        let base: BoxedStrategy<MutBase> = if corpus.is_empty() {
+            gen.boxed()
+        } else {
+            let from_corpus = sel().prop_map(move |i| {
+                let (file, text) = corpus[pick_idx(i, corpus.len())].clone();
+                MutBase::Text { file, text }
+            });
+            prop_oneof![1 => gen, 1 => from_corpus].boxed()
+        };
+        (base, proptest::collection::vec((0u8..MUT_KINDS, any::<u16>(), any::<u16>()), 1..=4)).prop_map(|(base, muts)| MutCase { base, muts }).boxed()
     }
     fn describe(&self, c: &MutCase) -> serde_json::Value {
         json!({"text": mutated_text(c), "mutations": c.muts})
@@ -2082,6 +2163,8 @@ impl Part for Mutations {
         let text = mutated_text(c);
         total_outcome(&text, &mut o);
         o.class_if(!text.is_ascii(), "non-ascii");
+        o.class_if(matches!(c.base, MutBase::Text { .. }), "base:corpus-request");
+        o.class_if(matches!(c.base, MutBase::Gen { .. }), "base:generated-request");
         o
     }
 }
@@ -2218,7 +2301,8 @@ impl Part for Nesting {
             let overflow = err.contains("overflowed its stack");
             let what = if overflow { "stack_overflow" } else { "killed_by_signal" };
             o.fail(
-                format!("c16.total.{what}.{}", c.kind),
+                // opener-only and balanced nesting exhaust the stack through the same recursion: one signature per recursion
+                format!("c16.total.{what}.{}", c.kind.trim_end_matches("_open_only")),
                 format!("parsing {} nesting levels of `{}` on a 2 MiB stack killed the process (signal {sig}): {} — input {:?}", c.n, c.kind, clip(err.trim(), 300), clip(&nesting_input(&c.kind, c.n), 120)),
             );
             return o;
@@ -2446,7 +2530,7 @@ fn main() {
     s.run_enum(&FuzzCorpus, files.into_iter(), true);
     if tier == Tier::Thorough {
         let seed = if s.seed == 0 { 1 } else { s.seed };
-        s.run_enum(&LibFuzzer, vec![FuzzCase { runs_per_job: 750_000, jobs: 4, seed }].into_iter(), false);
+        s.run_enum(&LibFuzzer, vec![FuzzCase { runs_per_job: 1_250_000, jobs: 4, seed }].into_iter(), false);
     }
     std::process::exit(s.finish());
 }
